@@ -505,7 +505,14 @@ def probe_prices(spec):
             continue
         i = cand[0]
         b0 = op.b[i]
-        op.b[i] = b0 - d          # sum disp + d = 0
+        # an injection is a VOLUME d delivered into the node: it enters the balance like a dispatch variable with factor 1 fixed at d.
+        # The weight such a variable has in this row is read off the row itself (coefficient / mapping factor of its entries; 1 as documented)
+        j0 = want[0]
+        sel = mp[(mp.index == j0) & (mp['type'] == 'd') & (mp['node'] == node) & (mp['time_step'] == t)]
+        f0 = float(sel['disp_factor'].fillna(1.0).sum()) if 'disp_factor' in sel.columns else float(len(sel))
+        cj = dict(zip(rows[i][0], rows[i][1])).get(j0, 0.0)
+        w_ = cj / f0 if f0 != 0 and cj != 0 else 1.0
+        op.b[i] = b0 - w_ * d          # sum disp + d = 0
         try:
             r = op.optimize()
         finally:
@@ -693,7 +700,8 @@ def probe_fixwindow(spec):
         portf = mk_portfolio(spec)
         tg = mk_grid(spec['grid'])
         prices = mk_prices(spec)
-        op = portf.setup_optim_problem(prices, tg)
+        skw = {'skip_nodes': list(opts['skip_nodes'])} if opts.get('skip_nodes') else {}
+        op = portf.setup_optim_problem(prices, tg, **skw)
         res = op.optimize()
     except Exception as e:
         return {'status': 'setup_error', 'error': repr(e)[:300]}
@@ -734,7 +742,7 @@ def probe_fixwindow(spec):
         p2 = mk_portfolio(spec)
         tg2 = mk_grid(spec['grid'])
         fw = {'I': I.copy() if isinstance(I, np.ndarray) else I, 'x': res.x.copy()}
-        op2 = p2.setup_optim_problem(pr, tg2, fix_time_window=fw)
+        op2 = p2.setup_optim_problem(pr, tg2, fix_time_window=fw, **skw)
         return op2
     try:
         op2 = rebuilt(mk_prices(spec))
